@@ -787,11 +787,11 @@ type profile struct {
 
 var profiles = map[string]profile{
 	// tip/chain is the most-work chain, with maintenance interleaved
-	"C01": {mask: 4, clean: 5, save: 2, load: 3, dupes: 4, orphans: 6},
+	"C01": {mask: 4, clean: 5, save: 2, load: 3, mark: 3, dupes: 4, orphans: 6},
 	// stream
 	"C07": {mask: 2 | 32, extraSubs: 3, dupes: 5, orphans: 3},
 	// verdicts + refusal no-op
-	"C08": {mask: 1 | 64, dupes: 10, orphans: 10, clean: 2},
+	"C08": {mask: 1 | 64, dupes: 10, orphans: 10, clean: 2, mark: 3},
 	// lookups
 	"C09": {mask: 8, clean: 6, save: 2, load: 3, mark: 2, dupes: 2, orphans: 3},
 	// clean changes nothing (attributed through a clean-free control)
